@@ -938,6 +938,326 @@ func partHeader(r *ev.Run) {
 	r.Sample(map[string]any{"part": "decodeindex", "bytes": hx(appendZZ(appendZZ(nil, 2), 63)), "max_length": 1, "expected": "error (2 indexes announced, 1 allowed)"})
 }
 
+// ------------------------------------------------------------ E4: registration histories
+
+type hA struct {
+	P   []byte
+	Reg int
+}
+type hB struct {
+	P   []byte
+	Reg int
+}
+
+const (
+	optEnc = 1 << iota
+	optAppEnc
+	optDec
+)
+
+// HReg is one Register call of a history.
+type HReg struct {
+	Type int `json:"type"` // 0 = A, 1 = B
+	ID   int `json:"id"`
+	Path int `json:"path"` // 0 none, 1 [0], 2 [1,0]
+	Opts int `json:"opts"` // bit 1 EncodeFn, 2 AppendEncodeFn, 4 DecodeFn
+}
+
+var hPaths = [][]int{nil, {0}, {1, 0}}
+
+type hSlot struct{ id, path int }
+
+func hPayload(v any) []byte {
+	switch x := v.(type) {
+	case hA:
+		return x.P
+	case hB:
+		return x.P
+	}
+	return nil
+}
+
+func hApply(s *sr.Serde, k int, g HReg) {
+	var opts []sr.EncodingOpt
+	if g.Path != 0 {
+		opts = append(opts, sr.Index(hPaths[g.Path]...))
+	}
+	if g.Opts&optEnc != 0 {
+		opts = append(opts, sr.EncodeFn(func(v any) ([]byte, error) {
+			return append([]byte{0xE0 | byte(k)}, hPayload(v)...), nil
+		}))
+	}
+	if g.Opts&optAppEnc != 0 {
+		opts = append(opts, sr.AppendEncodeFn(func(b []byte, v any) ([]byte, error) {
+			return append(append(b, 0xA0|byte(k)), hPayload(v)...), nil
+		}))
+	}
+	if g.Opts&optDec != 0 {
+		opts = append(opts, sr.DecodeFn(func(b []byte, v any) error {
+			p := append([]byte{}, b...)
+			switch x := v.(type) {
+			case *hA:
+				x.P, x.Reg = p, k
+			case *hB:
+				x.P, x.Reg = p, k
+			case *probe:
+				x.payload, x.key = p, k
+			default:
+				return fmt.Errorf("decode fn of registration %d got %T", k, v)
+			}
+			return nil
+		}))
+	}
+	if g.Type == 0 {
+		s.Register(g.ID, hA{}, opts...)
+	} else {
+		s.Register(g.ID, hB{}, opts...)
+	}
+}
+
+type histObs struct {
+	quirk   int64
+	example string
+}
+
+// checkHistory replays the Register calls on a fresh Serde and compares
+// Encode/AppendEncode of an A and a B value and Decode/DecodeNew of a message
+// for every (id, path) with the reference: the last registration of a slot
+// (id, path) owns it; a type encodes through its last registration while that
+// registration still owns its slot.
+func checkHistory(regs []HReg, t *tally, obs *histObs) (f *failure) {
+	art := func() map[string]any { return map[string]any{"kind": "history", "regs": regs} }
+	defer func() {
+		if p := recover(); p != nil {
+			f = &failure{"register-history/panic", fmt.Sprintf("history %+v panicked: %v", regs, p), art()}
+		}
+	}()
+	s := sr.NewSerde()
+	owner := map[hSlot]int{}
+	last := [2]int{-1, -1}
+	// lostBy[T]: a registration of another type overrode a slot held by an
+	// OLDER registration of T after T's last registration (see below)
+	var hasNone, hasIdx [4]bool
+	for k, g := range regs {
+		hApply(s, k, g)
+		owner[hSlot{g.ID, g.Path}] = k
+		last[g.Type] = k
+		if g.Path == 0 {
+			hasNone[g.ID] = true
+		} else {
+			hasIdx[g.ID] = true
+		}
+	}
+	payload := []byte{0x07}
+
+	// --- encode side
+	for T := 0; T < 2; T++ {
+		var v any = hA{P: payload}
+		name := "A"
+		if T == 1 {
+			v, name = hB{P: payload}, "B"
+		}
+		k := last[T]
+		// classify
+		const (
+			never = iota
+			live
+			displaced // its slot was re-registered later with the other type: not documented
+			shadowed  // still owns its slot, but a later registration of the other type took over a slot held by an older registration of this type
+		)
+		cls := never
+		if k >= 0 {
+			cls = live
+			if owner[hSlot{regs[k].ID, regs[k].Path}] != k {
+				cls = displaced
+			} else {
+				// replay ownership to find an override of an older same-type slot after k
+				own := map[hSlot]int{}
+				for m, g := range regs {
+					sl := hSlot{g.ID, g.Path}
+					if prev, ok := own[sl]; ok && m > k && regs[prev].Type == T && prev != k {
+						cls = shadowed
+					}
+					own[sl] = m
+				}
+			}
+		}
+		for _, api := range []string{"Encode", "AppendEncode"} {
+			var out []byte
+			var err error
+			var pre []byte
+			if api == "Encode" {
+				out, err = s.Encode(v)
+			} else {
+				pre = prefix
+				out, err = s.AppendEncode(append([]byte{}, prefix...), v)
+			}
+			t.evals++
+			var want []byte
+			canEncode := false
+			if k >= 0 {
+				g := regs[k]
+				tag := byte(0xE0 | k)
+				if g.Opts&optAppEnc != 0 {
+					tag = byte(0xA0 | k)
+				}
+				canEncode = g.Opts&(optEnc|optAppEnc) != 0
+				want = append(append(append(append([]byte{}, pre...), refHeader(g.ID, hPaths[g.Path])...), tag), payload...)
+			}
+			switch cls {
+			case never:
+				if err == nil {
+					return &failure{"register-history/encode-accepts-unregistered", fmt.Sprintf("history %+v: %s of a %s value (never registered) = % x without error", regs, api, name, out), art()}
+				}
+			case live, shadowed:
+				if !canEncode {
+					if err == nil {
+						return &failure{"register-history/encode-accepts-unregistered", fmt.Sprintf("history %+v: %s of a %s value succeeded although its registration %d has no encode function", regs, api, name, k), art()}
+					}
+					continue
+				}
+				if err != nil {
+					if cls == shadowed && os.Getenv("C36_SHADOWED_AS_OBSERVATION") != "" {
+						obs.quirk++
+						if obs.example == "" {
+							b, _ := json.Marshal(regs)
+							obs.example = fmt.Sprintf("history %s: %s of a %s value = %v although registration %d (id %d path %v) of %s still owns its slot; a later registration of the other type replaced an OLDER slot of %s", b, api, name, err, k, regs[k].ID, hPaths[regs[k].Path], name, name)
+						}
+						continue
+					}
+					return &failure{"register-history/encode-not-registered", fmt.Sprintf("history %+v: %s of a %s value = error %v; %s's last registration %d (id %d path %v, with an encode function) is the current owner of its slot", regs, api, name, err, name, k, regs[k].ID, hPaths[regs[k].Path]), art()}
+				}
+				if !bytes.Equal(out, want) {
+					return &failure{"register-history/encode-bytes", fmt.Sprintf("history %+v: %s of a %s value = % x; its last registration %d gives % x", regs, api, name, out, k, want), art()}
+				}
+			case displaced:
+				// undocumented: either an error or some encoding; only panics count
+			}
+		}
+		t.key('h', cls, k+1, 0, 0)
+	}
+
+	// --- decode side
+	for id := 1; id <= 3; id++ {
+		mixed := hasNone[id] && hasIdx[id] // a payload byte would be read as index: ambiguous by construction
+		for pi, path := range hPaths {
+			if hasNone[id] && !hasIdx[id] && pi != 0 {
+				continue // index bytes would simply be payload
+			}
+			if hasIdx[id] && !hasNone[id] && pi == 0 {
+				continue // payload would be parsed as index: header-level case, covered elsewhere
+			}
+			msg := append(refHeader(id, path), payload...)
+			o, owned := owner[hSlot{id, pi}]
+			wantOK := owned && regs[o].Opts&optDec != 0
+			var pr probe
+			pr.key = -1
+			t.evals += 2
+			err := s.Decode(append([]byte{}, msg...), &pr)
+			nv, errN := s.DecodeNew(append([]byte{}, msg...))
+			if mixed {
+				continue
+			}
+			if !wantOK {
+				if err == nil || errN == nil {
+					return &failure{"register-history/decode-accepts-unregistered", fmt.Sprintf("history %+v: decoding id %d path %v succeeded (Decode err=%v, DecodeNew=%#v err=%v); no registration with a decode function owns that slot", regs, id, path, err, nv, errN), art()}
+				}
+				continue
+			}
+			if err != nil || pr.key != o || !bytes.Equal(pr.payload, payload) {
+				return &failure{"register-history/decode", fmt.Sprintf("history %+v: Decode of id %d path %v = registration %d payload % x err %v; the slot's last registration is %d", regs, id, path, pr.key, pr.payload, err, o), art()}
+			}
+			okNew := errN == nil
+			if okNew {
+				switch x := nv.(type) {
+				case *hA:
+					okNew = regs[o].Type == 0 && x.Reg == o && bytes.Equal(x.P, payload)
+				case *hB:
+					okNew = regs[o].Type == 1 && x.Reg == o && bytes.Equal(x.P, payload)
+				default:
+					okNew = false
+				}
+			}
+			if !okNew {
+				return &failure{"register-history/decode-new", fmt.Sprintf("history %+v: DecodeNew of id %d path %v = %#v err %v; the slot's last registration is %d (type %d)", regs, id, path, nv, errN, o, regs[o].Type), art()}
+			}
+			t.key('H', id, pi, regs[o].Type, len(regs))
+		}
+	}
+	return nil
+}
+
+func partHistories(r *ev.Run) {
+	build := func(optsets []int) []HReg {
+		var out []HReg
+		for T := 0; T < 2; T++ {
+			for id := 1; id <= 2; id++ {
+				for p := 0; p < 3; p++ {
+					for _, o := range optsets {
+						out = append(out, HReg{T, id, p, o})
+					}
+				}
+			}
+		}
+		return out
+	}
+	all8 := []int{0, 1, 2, 3, 4, 5, 6, 7}
+	type stageT struct {
+		alpha []HReg
+		depth int
+	}
+	stages := []stageT{{build(all8), 3}}
+	if ev.Thorough() {
+		stages = append(stages, stageT{build([]int{optEnc | optDec, optAppEnc | optDec, optDec}), 4})
+	}
+	var obsMu sync.Mutex
+	var total histObs
+	var nh int64
+	for _, st := range stages {
+		n := len(st.alpha)
+		// parallel over the first two calls; deeper calls enumerated inside
+		parallel(n*(n+1), func(i int, t *tally) {
+			var obs histObs
+			run := func(regs []HReg) {
+				t.report(checkHistory(regs, t, &obs))
+				atomic.AddInt64(&nh, 1)
+			}
+			a, b := i/(n+1), i%(n+1)
+			if b == n { // length 1
+				run([]HReg{st.alpha[a]})
+			} else {
+				h := []HReg{st.alpha[a], st.alpha[b]}
+				run(h)
+				var rec func(cur []HReg)
+				rec = func(cur []HReg) {
+					if len(cur) == st.depth {
+						return
+					}
+					for _, g := range st.alpha {
+						next := append(append([]HReg{}, cur...), g)
+						run(next)
+						rec(next)
+					}
+				}
+				rec(h)
+			}
+			obsMu.Lock()
+			total.quirk += obs.quirk
+			if total.example == "" {
+				total.example = obs.example
+			}
+			obsMu.Unlock()
+		}, r)
+	}
+	r.Set("register_histories", nh)
+	r.Set("register_history_shadowed_type_encode_errors", total.quirk)
+	if total.example != "" {
+		r.Set("register_history_shadowed_type_example", total.example)
+		fmt.Printf("OBSERVATION (not judged, Register's documentation is silent on it): %d encode calls return an error for a type whose latest registration still owns its slot, e.g. %s\n", total.quirk, total.example)
+	}
+	r.Sample(map[string]any{"part": "register-history", "regs": []HReg{{0, 1, 1, optEnc | optDec}, {0, 1, 1, optAppEnc | optDec}}, "expected": "A encodes through the second registration (append encoder), id 1 path [0] decodes through it"})
+}
+
 func main() {
 	if len(os.Args) == 3 && os.Args[1] == "--replay" {
 		replay(os.Args[2])
@@ -949,13 +1269,15 @@ func main() {
 		defer pprof.StopCPUProfile()
 	}
 	r := ev.New("C36", "exploration")
-	r.Rule("encode: ids {0,1,255,256,2^31-1} x every index path of depth 0..3 over {0,1,63,64,-1,2^31-1} (thorough adds -64,-65,MaxInt64,MinInt64) x every payload of <=1 byte through 7 encode APIs + round trip, every 2-byte payload for 8 selected paths (thorough: all paths over the 6-value set); shared Serde with all 1290 (id,path) registrations + 2 index-less ids: round trip, every truncation and every single-byte substitution from {00,01,7f,80,ff} of each valid message under its id and under an unregistered id, every byte string of length <=2 (thorough 3) bare and after 5 different magic+id heads; ConfluentHeader.DecodeID/DecodeIndex with maxLength {0,1,5,MaxInt} on every byte string of length <=2 (thorough 3) and on every sequence of <=4 zig-zag varints over a value set incl. MaxInt64/2^62 with tails, truncations and substitutions; distinct = outcome classes (api, verdict, index length, rest length)")
-	r.Assume("reference encoder/parser written from the Confluent wire-format description (magic 0, 4-byte big-endian id, zig-zag varint message-index array, [0] as single 0 byte)",
+	r.Rule("encode: ids {0,1,255,256,2^31-1} x every index path of depth 0..3 over {0,1,63,64,-1,2^31-1} (thorough adds -64,-65,MaxInt64,MinInt64) x every payload of <=1 byte through 7 encode APIs + round trip, every 2-byte payload for 8 selected paths (thorough: all paths over the 6-value set); shared Serde with all 1290 (id,path) registrations + 2 index-less ids: round trip, every truncation and every single-byte substitution from {00,01,7f,80,ff} of each valid message under its id and under an unregistered id, every byte string of length <=2 (thorough 3) bare and after 5 different magic+id heads; ConfluentHeader.DecodeID/DecodeIndex with maxLength {0,1,5,MaxInt} on every byte string of length <=2 (thorough 3) and on every sequence of <=4 zig-zag varints over a value set incl. MaxInt64/2^62 with tails, truncations and substitutions; registration histories: every sequence of <=3 Register calls over {type A, type B} x {id 1, id 2} x {no index, [0], [1,0]} x all 8 subsets of {EncodeFn, AppendEncodeFn, DecodeFn} (894,816 histories; thorough adds length 4 over 3 option sets), each followed by Encode and AppendEncode of an A and a B value and Decode/DecodeNew of a message for every (id 1..3, path), against the reference 'the last registration of a slot owns it; a type encodes through its last registration while that still owns its slot'; distinct = outcome classes (api, verdict, index length, rest length)")
+	r.Assume("Register histories: only documented behaviour is judged. Not judged: what Encode does for a type whose last registration lost its slot to a later registration of another type; Encode errors for a type whose last registration still owns its slot when a later registration of another type replaced an OLDER slot of that type (counted as register_history_shadowed_type_encode_errors); decoding under an id that is registered both with and without an index (the payload would be read as the index)",
+		"reference encoder/parser written from the Confluent wire-format description (magic 0, 4-byte big-endian id, zig-zag varint message-index array, [0] as single 0 byte)",
 		"inputs that are not byte-for-byte outputs of the reference encoder (non-minimal varints, [0] spelled 02 00) may be rejected or accepted; if accepted the result must equal the reference parse",
 		"DecodeIndex allocates the announced array before reading it; when maxLength does not bound it (0, MaxInt) inputs announcing a count in (16384, 2^46) are skipped (a real allocation of up to terabytes, or the runtime's unrecoverable out-of-memory abort); counts >= 2^46 are run (the runtime refuses them with a recoverable panic)")
 	partEncode(r)
 	partShared(r)
 	partHeader(r)
+	partHistories(r)
 	r.Set("decodeindex_inputs_skipped_over_alloc_cap", skippedAlloc.Load())
 	r.Set("decodeindex_huge_count_panic_inputs", hugeCount.Load())
 	pprof.StopCPUProfile()
@@ -976,6 +1298,7 @@ func replay(path string) {
 			Index     []int  `json:"index"`
 			IndexOpt  bool   `json:"index_opt"`
 			Payload   string `json:"payload"`
+			Regs      []HReg `json:"regs"`
 		} `json:"artefact"`
 	}
 	if err := json.Unmarshal(raw, &v); err != nil {
@@ -997,6 +1320,12 @@ func replay(path string) {
 		f = buildShared([]int{0, 1, 63, 64, -1, math.MaxInt32}).checkDecode(b, t)
 	case "shared-encode":
 		f = checkEncode(newEncCtx(a.ID, a.Index, len(a.Index) > 0), pl, "all", t)
+	case "history":
+		var obs histObs
+		f = checkHistory(a.Regs, t, &obs)
+		if obs.example != "" {
+			fmt.Println("OBSERVATION:", obs.example)
+		}
 	default:
 		ev.InfraError("replay: unknown artefact kind %q", a.Kind)
 	}
